@@ -137,6 +137,29 @@ Definition hmon_step (m : hmon) (e : list N * obs) : hmon :=
 Definition handles_ok (tr : list (list N * obs)) : bool :=
   h_good (fold_left hmon_step tr (mkHmon 1 1 false true)).
 
+(* runs of the model on encoded operations with whole-call handle drops (codes 9 / 13; what the
+   harness executes): every call respects the contract, the split sections 7, 8, 11, 12 do not
+   occur *)
+Fixpoint mtrace (s : state) (ls : list (list N)) : list (list N * obs) :=
+  match ls with
+  | [] => []
+  | l :: r => let '(s', ob) := mstep s l in (l, ob) :: mtrace s' r
+  end.
+
+Definition mlegal (s : state) (l : list N) : bool :=
+  match l with
+  | [9%N] => negb (gone s) && Nat.ltb 0 (senders s)
+  | [13%N] => negb (gone s) && Nat.ltb 0 (receivers s)
+  | [7%N] | [8%N] | [11%N] | [12%N] => false
+  | _ => match decode l with Some o => legal s o | None => false end
+  end.
+
+Fixpoint mlegal_run (s : state) (ls : list (list N)) : bool :=
+  match ls with
+  | [] => true
+  | l :: r => mlegal s l && mlegal_run (fst (mstep s l)) r
+  end.
+
 Definition decode_mon (l : list N) : option op :=
   match l with
   | [9%N] => Some DropSenderClose
